@@ -1,7 +1,7 @@
 (* C20 correspondence: case type, model run (as sx observation), executable statement spec_ok. *)
 From Coq Require Import QArith Qreduction.
 From Verif Require Import Base.Prelude Base.StrUtil Model.ResourcesSpec.
-From Verif Require Export Model.Resources.   (* constructors used by the generated case files *)
+From Verif Require Export Model.Resources Model.ResourcesSeq.   (* constructors used by the generated case files *)
 Local Close Scope Q_scope.
 
 (* Operands are given as raw constructor arguments (a [res] record that has NOT been validated; its extra_args
@@ -15,7 +15,8 @@ Inductive case :=
 | CDict (r : res)                              (* r.dict(), Resources.from_dict(r.dict()), == r *)
 | CFromDict (d : udict)                        (* Resources.from_dict(d) *)
 | CSlurm (r : res)                             (* r.to_slurm_options() *)
-| CMaybeMax (e : explicit) (ch : list (option res)).  (* _maybe_max_resources(e, [f with f.resources = ch_i]) *)
+| CMaybeMax (e : explicit) (ch : list (option res))   (* _maybe_max_resources(e, [f with f.resources = ch_i]) *)
+| CSeq (base : list res) (ops : list rop).     (* operations on SHARED objects; every object re-observed after each *)
 
 (* ---------- observation format (shared by model and statement; [size] is the respective size function) ---------- *)
 Definition sx_oz (o : option Z) : sx := match o with Some z => SI z | None => SNone end.
@@ -56,6 +57,36 @@ Definition mk_explicit (e : explicit) : result explicit :=
   match e with ERes a => do r <- mk a; Ok (ERes r) | _ => Ok e end.
 Definition sx_mm_which (w : mm_which) : sx :=
   SS (match w with MNone => s "none" | MExplicit => s "explicit" | MChild => s "child" | MNew => s "new" end).
+
+(* ---------- operation sequences on shared objects ---------- *)
+(* what is observed of ONE object: its fields, sorted(vars(obj)), obj.update() with no arguments, to_slurm_options(),
+   Resources.from_dict(obj.dict()) == obj *)
+Definition snap_obj (r : res) : sx :=
+  SL [sx_res r; SL (map SS var_keys); sx_of_result sx_res (fst (fst (update r [])));
+      SS (to_slurm_options r);
+      SB (match from_dict (to_dict r) with Ok x => res_eqb x r | Err _ => false end)].
+Definition snapshot (h : heap) : sx := SL (map snap_obj h).
+Definition sx_oval (v : oval) : sx :=
+  match v with VDict d => sx_udict d | VStr x => SS x | VBool b => SB b end.
+(* [n] = number of objects before the step: a new object gets id n *)
+Definition sx_outcome (n : nat) (o : outcome) : sx :=
+  match o with
+  | ONew => SL [SS (s "ok"); SN n]
+  | OExisting id => SL [SS (s "ok"); SN id]
+  | OValue v => SL [SS (s "val"); sx_oval v]
+  | ORaise e => SErr e
+  | OBad => SS (s "bad-case")
+  end.
+Fixpoint run_ops (h : heap) (ops : list rop) : list sx :=
+  match ops with
+  | [] => []
+  | o :: t => let (out, h') := step h o in SL [sx_outcome (length h) out; snapshot h'] :: run_ops h' t
+  end.
+Definition run_seq (base : list res) (ops : list rop) : sx :=
+  match mapM mk base with
+  | Err e => bad_case e
+  | Ok h => SL (snapshot h :: run_ops h ops)
+  end.
 
 Definition run (c : case) : sx :=
   match c with
@@ -108,6 +139,7 @@ Definition run (c : case) : sx :=
       | Err er, _ => bad_case er
       | _, Err er => bad_case er
       end
+  | CSeq base ops => run_seq base ops
   end.
 
 (* ---------- decoding of observations ---------- *)
@@ -203,6 +235,50 @@ Fixpoint sp_assemble (d : udict) (r : res) : option res :=
       end
   end.
 
+(* ---------- operation sequences: every existing object looks and behaves the same after each step ---------- *)
+(* an object that behaves like a value: update() with no arguments gives an equal object, the dict round trip holds *)
+Definition self_ok (x : sx) : bool :=
+  match x with
+  | SL [f; _; u; SS _; e] => sx_eqb u (SL [SS (s "ok"); f]) && sx_eqb e (SB true)
+  | _ => false
+  end.
+Definition snap_ok_for (r : res) (x : sx) : bool :=
+  match x with SL (f :: _) => sx_eqb f (sp_enc r) && self_ok x | _ => false end.
+Fixpoint forallb2' {A B} (p : A -> B -> bool) (a : list A) (b : list B) : bool :=
+  match a, b with
+  | [], [] => true
+  | x :: a', y :: b' => p x y && forallb2' p a' b'
+  | _, _ => false
+  end.
+(* must this operation, when it succeeds, return a NEW object? (with_defaults(None) returns self) *)
+Definition must_be_new (o : rop) : bool :=
+  match o with
+  | OCreate _ | OUpdate _ _ | OCombine _ | OFromDict _ | OWithDefaults _ (Some _) => true
+  | _ => false
+  end.
+Definition is_ok_id (st : sx) : option nat :=
+  match st with
+  | SL [SS t; SI z] => if str_eqb t (s "ok") && (0 <=? z)%Z then Some (Z.to_nat z) else None
+  | _ => None
+  end.
+(* one step: the objects that existed before are observed exactly as before; at most one object is added, and only
+   by an operation that returned it; the added object behaves like a value *)
+Definition step_ok (o : rop) (prev : list sx) (st : sx) (cur : list sx) : bool :=
+  list_eqb sx_eqb (firstn (length prev) cur) prev
+  && match is_ok_id st with
+     | Some id =>
+         if (id =? length prev)%nat
+         then match skipn (length prev) cur with [x] => self_ok x | _ => false end
+         else negb (must_be_new o) && (id <? length prev)%nat && (length cur =? length prev)%nat
+     | None => (length cur =? length prev)%nat
+     end.
+Fixpoint steps_ok (ops : list rop) (prev : list sx) (obs : list sx) : bool :=
+  match ops, obs with
+  | [], [] => true
+  | o :: ops', SL [st; SL cur] :: obs' => step_ok o prev st cur && steps_ok ops' cur obs'
+  | _, _ => false
+  end.
+
 Definition spec_ok (c : case) (o : sx) : bool :=
   match c with
   | CNew a =>
@@ -287,6 +363,12 @@ Definition spec_ok (c : case) (o : sx) : bool :=
                   | ERes r => ok_with x (fun q => same_quantities_b q r)
                   | EDict _ => true
                   end
+           | _ => false
+           end
+  | CSeq base ops =>
+      if negb (forallb operand_ok base) then true
+      else match o with
+           | SL (SL snap0 :: steps) => forallb2' snap_ok_for base snap0 && steps_ok ops snap0 steps
            | _ => false
            end
   end.
